@@ -59,6 +59,8 @@ type faultCase struct {
 	crash *gen.CrashPoint
 	kline int
 	cfg   Cfg
+	visible bool // kill the group the instant the target task's final path becomes visible
+	xdev    bool // the absolute output area is on another file system
 }
 
 func c01(args []string) {
@@ -167,6 +169,11 @@ func c01(args []string) {
 				cases = append(cases, &faultCase{tc: tc, label: "killgroup=" + ph, key: t.Key, opts: map[string]string{"killgroup": ph, "size": "9000"}, cfg: cfg()})
 			}
 		}
+		// kill at the instant a final path becomes visible (large outputs)
+		for k := 0; k < c.Pick(1, 4) && len(tasks) > 0; k++ {
+			t := tasks[rng.Intn(len(tasks))]
+			cases = append(cases, &faultCase{tc: tc, label: "kill@final-path-visible", key: t.Key, opts: map[string]string{"size": "6000000"}, visible: true, cfg: cfg()})
+		}
 		// hook crash points
 		pts := d.points
 		npts := c.Pick(14, len(pts))
@@ -196,20 +203,65 @@ func c01(args []string) {
 			cases = append(cases, &faultCase{tc: tc, label: "kill@trace-line", kline: 1 + rng.Intn(d.ntrace), cfg: cfg()})
 		}
 	}
+	// absolute outputs on another file system (rename cannot work there; whatever the library does instead
+	// must not expose partial files): plain run and kill at first visibility of a final path
+	if st1, e1 := os.Stat("/dev/shm"); e1 == nil && st1.IsDir() {
+		for _, k := range []string{"single", "twoout"} {
+			for _, g := range []bool{false, true} {
+				for _, vis := range []bool{false, true} {
+					for r := 0; r < c.Pick(1, 3); r++ {
+						fcx := &faultCase{tc: topoCase{k, gen.ShapeAbs, g, 2}, label: "cross-device", xdev: true, visible: vis, cfg: Cfg{Buf: 128, Procs: 4}}
+						if vis {
+							fcx.label = "cross-device+kill@final-path-visible"
+							fcx.opts = map[string]string{"size": "30000000"}
+						}
+						cases = append(cases, fcx)
+					}
+				}
+			}
+		}
+	}
 	run.Parallel(len(cases), func(i int) {
 		fc := cases[i]
 		root := c.CaseDir()
 		defer c.Drop(root)
+		if fc.xdev {
+			xd := "/dev/shm/verif-xdev-" + filepath.Base(filepath.Dir(root)) + "-" + filepath.Base(root)
+			os.MkdirAll(xd, 0777)
+			defer os.RemoveAll(xd)
+			os.Symlink(xd, filepath.Join(root, "abs"))
+		}
 		s := gen.Topo(fc.tc.kind, fc.tc.shape, fc.tc.gof, root, fc.tc.n)
 		exp := evalRef(s, nil)
 		bh := gen.TopoBehav(fc.tc.kind, exp)
 		probesFor(root, exp, bh)
+		if fc.xdev && fc.key == "" {
+			// target: the first task with outputs
+			for _, t := range exp.Tasks {
+				if len(t.Outs) > 0 {
+					fc.key = t.Key
+					break
+				}
+			}
+		}
 		if fc.key != "" {
 			if bh[fc.key] == nil {
 				bh[fc.key] = map[string]string{}
 			}
 			for k, v := range fc.opts {
 				bh[fc.key][k] = v
+			}
+		}
+		var killWhen []string
+		if fc.visible {
+			for _, t := range exp.Tasks {
+				if t.Key == fc.key {
+					for port, p := range t.Outs {
+						if !t.Streams[port] {
+							killWhen = append(killWhen, filepath.Join(root, mon.RootRel(root, p)))
+						}
+					}
+				}
 			}
 		}
 		// the reference content depends on size overrides
@@ -219,7 +271,7 @@ func c01(args []string) {
 			cfg.Crash = fc.crash.Env()
 		}
 		sp := s
-		cs := &run.Case{Root: root, Bin: c.Bin, Spec: sp, Env: cfg.env(), Behav: bh, KillAtTraceLine: fc.kline}
+		cs := &run.Case{Root: root, Bin: c.Bin, Spec: sp, Env: cfg.env(), Behav: bh, KillAtTraceLine: fc.kline, KillWhenExists: killWhen}
 		c.Eval(1)
 		res := cs.Run()
 		if res.Hang != "" {
@@ -236,7 +288,9 @@ func c01(args []string) {
 		ps := mon.Atomicity(root, snap, exp, ti, preRootSet(root, s))
 		fired := false
 		switch {
-		case fc.crash != nil || fc.kline > 0 || fc.opts["killgroup"] != "":
+		case fc.xdev:
+			fired = len(ti.Starts[fc.key]) > 0
+		case fc.crash != nil || fc.kline > 0 || fc.opts["killgroup"] != "" || fc.visible:
 			fired = res.Signal != ""
 		case fc.key != "":
 			fired = len(ti.Starts[fc.key]) > 0
